@@ -5,6 +5,7 @@ from .. import mirq as M
 from .. import hireval as H
 from ..rules import provider, units
 from ..rules.common import hir_walk, node_line
+from ..terms import show
 
 EXPLANATION = (
     "Static effect, unit and floor analysis on the facts exported from /repo's current tree (workspace, --features "
@@ -45,15 +46,23 @@ def check_identifier(run, fx):
         gets[0]["args"][0]["res"].get("local") == (f.params[1]["name"] if len(f.params) > 1 else None)
     run.check(okg, rule, "lookup", "trie.get(identifier) with the parameter unchanged",
               "check_identifier does not pass its parameter unchanged to ZeroAsciiIgnoreCaseTrie::get", f.loc)
-    ev = H.Evaluator(fx)
-    ev.inline = lambda p: False
-    outs = set()
-    for dec, res, tr in ev.paths(f, [H.Sym("param", ("self",)), H.Sym("param", ("identifier",))]):
-        hit = [ch for c, ch in dec if "get" in c]
-        outs.add((tuple(hit), "false" if res is False else "member" if not isinstance(res, bool) else str(res)))
-    run.check(any(r == "false" for _, r in outs) and any(r != "false" for _, r in outs), rule, "result",
-              "unknown identifier -> false, known -> normalised-name lookup", "check_identifier result shape changed: %s" %
-              sorted(outs), f.loc)
+    # the two outcomes of the trie lookup are substituted for the call: a miss must give `false`, a hit must not
+    res = {}
+    for name, out in (("miss", H.V(H.NONE, ())), ("hit", H.V(H.SOME, (H.Sym("param", ("index",)),)))):
+        ev = H.Evaluator(fx)
+        ev.inline = lambda p: False
+        ev.stubs["ZeroAsciiIgnoreCaseTrie"] = lambda args, out=out: out
+        try:
+            res[name] = ev.call_fn(f, [H.Sym("param", ("self",)), H.Sym("param", ("identifier",))])
+        except (H.Panic, H.Budget):
+            res[name] = None
+    if res["miss"] is None or res["hit"] is None or H.has_sym(res["miss"]):
+        run.ok(rule, "result", "check_identifier does not fold on the two lookup outcomes: not decided", f.loc, nontrivial=False)
+    else:
+        run.check(res["miss"] is False and res["hit"] is not False, rule, "result",
+                  "unknown identifier -> false, known -> normalised-name lookup",
+                  "check_identifier gives %s for an identifier the trie does not contain and %s for one it contains" %
+                  (show(res["miss"]), show(res["hit"])[:80]), f.loc)
 
 
 def main(tier):
